@@ -1,24 +1,28 @@
 ------------------------------- MODULE LinQueue -------------------------------
-(* Sequential FIFO queue, optionally bounded (Cap = 0: unbounded).  Oracle for C06, C07, and the  *)
-(* queue facet of C20/C23.  Values are integers; the drivers enqueue pairwise distinct values.    *)
+(* Sequential FIFO queue, optionally bounded (cap = 0: unbounded).  Oracle for C06, C07 and the queue facet of     *)
+(* C20/C23.  Values are integers; drivers enqueue pairwise distinct values.  The capacity is the constant Cap       *)
+(* unless the driver reports the container's own capacity() by a "cap" observation before the first operation.      *)
 EXTENDS LinCore
 CONSTANT Cap
 
-QInit == <<>>
+QInit(p) == [q |-> <<>>, cap |-> Cap]
 IfSet(c, s) == IF c THEN {s} ELSE {}
-QStep(q, c) ==
-  CASE c.op = "enq"      -> IF c.r = 1 THEN IfSet(Cap = 0 \/ Len(q) < Cap, Append(q, c.a))
-                                       ELSE IfSet(Cap > 0 /\ Len(q) = Cap, q)       \* fails only when full
-    [] c.op = "deq"      -> IF c.r = 1 THEN IfSet(q # <<>> /\ Head(q) = c.v, Tail(q))
-                                       ELSE IfSet(q = <<>>, q)                       \* empty only when empty
-    [] c.op = "empty"    -> IfSet((q = <<>>) <=> (c.r = 1), q)
-    [] c.op = "size"     -> IfSet(Len(q) = c.r, q)
-    [] c.op = "front"    -> IF c.r = 1 THEN IfSet(q # <<>> /\ Head(q) = c.v, q) ELSE IfSet(q = <<>>, q)
-    [] c.op = "popfront" -> IF c.r = 1 THEN IfSet(q # <<>>, Tail(q)) ELSE IfSet(q = <<>>, q)
+QStep(s, c) ==
+  LET q == s.q IN
+  CASE c.op = "enq"      -> IF c.r = 1 THEN IfSet(s.cap = 0 \/ Len(q) < s.cap, [s EXCEPT !.q = Append(q, c.a)])
+                                       ELSE IfSet(s.cap > 0 /\ Len(q) = s.cap, s)     \* fails only when full
+    [] c.op = "deq"      -> IF c.r = 1 THEN IfSet(q # <<>> /\ Head(q) = c.v, [s EXCEPT !.q = Tail(q)])
+                                       ELSE IfSet(q = <<>>, s)                         \* empty only when empty
+    [] c.op = "empty"    -> IfSet((q = <<>>) <=> (c.r = 1), s)
+    [] c.op = "size"     -> IfSet(Len(q) = c.r, s)
+    [] c.op = "front"    -> IF c.r = 1 THEN IfSet(q # <<>> /\ Head(q) = c.v, s) ELSE IfSet(q = <<>>, s)
+    [] c.op = "popfront" -> IF c.r = 1 THEN IfSet(q # <<>>, [s EXCEPT !.q = Tail(q)]) ELSE IfSet(q = <<>>, s)
+    [] c.op = "clear"    -> {[s EXCEPT !.q = <<>>]}
     [] OTHER -> {}
 \* "dispose" of an intrusive item is legal only for an item that is no longer in the queue
-QXStep(q, e) == IF e.op \in Fatal THEN {}
-                ELSE IF e.op = "dispose" THEN IfSet(\A i \in 1..Len(q) : q[i] # e.a, q)
-                ELSE {q}
-QFinal(q, p) == TRUE
+QXStep(s, e) == IF e.op \in Fatal THEN {}
+                ELSE IF e.op = "cap" THEN {[s EXCEPT !.cap = e.a]}
+                ELSE IF e.op = "dispose" THEN IfSet(\A i \in 1..Len(s.q) : s.q[i] # e.a, s)
+                ELSE {s}
+QFinal(s, p) == TRUE
 =============================================================================
